@@ -217,3 +217,120 @@ _run_prev = run
 def run(facts, rep, ctx):
     _run_prev(facts, rep, ctx)
     tb1b(facts, rep, 'TB-1b', 'alignment::pairwise::Aligner::<F>::custom')
+
+
+# --------------------------------------------------------------------------- TB-1
+
+TB_EXPECT = {'TB_INS': 'Ins', 'TB_DEL': 'Del', 'TB_MATCH': 'Match', 'TB_SUBST': 'Subst', 'TB_XCLIP_PREFIX': 'Xclip',
+             'TB_XCLIP_SUFFIX': 'Xclip', 'TB_YCLIP_PREFIX': 'Yclip', 'TB_YCLIP_SUFFIX': 'Yclip'}
+
+
+def tb1(facts, rep, rule, body_path):
+    """operation labelling: move codes vs emitted operations, Match/Subst decided by symbol equality"""
+    from .mirlib import call_info, strip, walk
+    from . import eng_gd
+    rep.rule(rule, 'operation labelling: the diagonal move code is TB_MATCH exactly on the edge where x[i-1] == y[j-1] and '
+                   'TB_SUBST on the other edge; in the traceback `match` the arm of each move code pushes the operation of '
+                   'that name (TB_MATCH -> Match, TB_SUBST -> Subst, TB_INS -> Ins, TB_DEL -> Del, clips -> Xclip/Yclip) '
+                   'and the arm of TB_START leaves the loop')
+    b = facts.body(body_path)
+    if b is None:
+        rep.missing(rule, body_path, 'not found')
+        return
+    rep.analysed_body(b)
+    codes = {}
+    for nm in list(TB_EXPECT) + ['TB_START']:
+        v = facts.const_value('alignment::pairwise::' + nm)
+        if v is None:
+            rep.missing(rule, 'alignment::pairwise::' + nm, 'move code constant not evaluated')
+            return
+        codes[nm] = v
+    # (a) Match/Subst selection
+    sel = {}
+    for bb in b.reachable(0):
+        for s in b.stmts(bb):
+            if s['k'] == 'assign' and s['r']['k'] == 'use' and 'k' in s['r']['o']:
+                d = (s['r']['o']['k'].get('def') or '').rsplit('::', 1)[-1]
+                if d in ('TB_MATCH', 'TB_SUBST') and 'pj' not in s['p']:
+                    sel.setdefault(d, []).append((bb, s['p']['l']))
+    key = body_path + '|match-subst-by-symbol-equality'
+    eqg = []
+    for g in eng_gd.guards(b):
+        e = strip(g['expr'])
+        if e[0] == 'bin' and e[1] in ('Eq', 'Ne'):
+            l2 = any(isinstance(x, tuple) and x[0] == 'local' and x[1] == 2 for x in walk(e[2])) and \
+                any(isinstance(x, tuple) and x[0] == 'local' and x[1] == 3 for x in walk(e[3]))
+            l3 = any(isinstance(x, tuple) and x[0] == 'local' and x[1] == 3 for x in walk(e[2])) and \
+                any(isinstance(x, tuple) and x[0] == 'local' and x[1] == 2 for x in walk(e[3]))
+            if (l2 or l3) and all(any(isinstance(x, tuple) and x[0] == 'index' for x in walk(z)) for z in (e[2], e[3])):
+                eqg.append((g, e[1] == 'Eq'))
+    if len(sel.get('TB_MATCH', [])) != 1 or len(sel.get('TB_SUBST', [])) != 1 or len(eqg) != 1:
+        rep.bad(rule, key, '%s:%s' % (b.file, b.line), 'expected one TB_MATCH and one TB_SUBST selection under one x[i-1] == y[j-1] '
+                                                       'test (found %d/%d selections, %d symbol comparisons)' % (
+                    len(sel.get('TB_MATCH', [])), len(sel.get('TB_SUBST', [])), len(eqg)))
+    else:
+        g, iseq = eqg[0]
+        eq_edge, ne_edge = (g['t'], g['f']) if iseq else (g['f'], g['t'])
+        mb, ml = sel['TB_MATCH'][0]
+        sb_, sl = sel['TB_SUBST'][0]
+        if b.edge_dominates((g['bb'], eq_edge), mb) and b.edge_dominates((g['bb'], ne_edge), sb_) and ml == sl:
+            rep.ok(rule, key, b.loc(g['bb']), 'TB_MATCH on the equal edge, TB_SUBST on the unequal edge')
+        else:
+            rep.bad(rule, key, b.loc(g['bb']), 'the diagonal move is labelled TB_MATCH/TB_SUBST independently of (or opposite to) '
+                                               'the comparison of the two symbols')
+    # (b) traceback arms
+    sw = None
+    for bb in b.reachable(0):
+        t = b.term(bb)
+        if t['k'] == 'switch' and t.get('dty') == 'u16' and len(t['vals']) >= 8:
+            sw = (bb, t)
+    key = body_path + '|traceback-arms'
+    if sw is None:
+        rep.missing(rule, key, 'traceback `match` on the move code not found')
+        return
+    bb0, t = sw
+    by_val = {v: tgt for v, tgt in t['vals']}
+    n = 0
+    for nm, want in TB_EXPECT.items():
+        tgt = by_val.get(codes[nm])
+        k2 = '%s|arm|%s' % (body_path, nm)
+        if tgt is None:
+            rep.bad(rule, k2, b.loc(bb0), 'move code %s has no arm in the traceback' % nm)
+            continue
+        n += 1
+        arm = {y for y in b.reachable(0) if b.dominates(tgt, y)}
+        # stop at the merge: blocks dominated by the arm target only
+        variants = set()
+        for y in arm:
+            for s in b.stmts(y):
+                if s['k'] == 'assign' and s['r']['k'] == 'agg' and s['r'].get('adt', '').endswith('AlignmentOperation'):
+                    variants.add(s['r']['variant'])
+        if variants == {want}:
+            rep.ok(rule, k2, b.loc(tgt), '%s -> %s' % (nm, want))
+        else:
+            rep.bad(rule, k2, b.loc(tgt), 'the arm of %s pushes %s, expected %s' % (nm, sorted(variants), want))
+    st = by_val.get(codes['TB_START'])
+    k2 = '%s|arm|TB_START' % body_path
+    if st is None:
+        rep.bad(rule, k2, b.loc(bb0), 'TB_START has no arm: the traceback cannot end')
+    else:
+        loops = b.natural_loops()
+        inloop = [h for h, blocks in loops.items() if bb0 in blocks]
+        # the START arm must leave every loop the switch is in without pushing an operation
+        reg = {y for y in b.reachable(0) if b.dominates(st, y)}
+        pushes = any(s['k'] == 'assign' and s['r']['k'] == 'agg' and s['r'].get('adt', '').endswith('AlignmentOperation')
+                     and y in set().union(*[loops[h] for h in inloop]) for y in reg for s in b.stmts(y)) if inloop else False
+        leaves = all(st not in loops[h] or any(x not in loops[h] for x in b.reachable(st)) for h in inloop)
+        if inloop and leaves and not pushes:
+            rep.ok(rule, k2, b.loc(st), 'TB_START leaves the traceback loop')
+        else:
+            rep.bad(rule, k2, b.loc(st), 'the TB_START arm does not end the traceback')
+    rep.floor(rule, 'move-code arms', n, 8)
+
+
+_run_prev2 = run
+
+
+def run(facts, rep, ctx):
+    _run_prev2(facts, rep, ctx)
+    tb1(facts, rep, 'TB-1', 'alignment::pairwise::Aligner::<F>::custom')
